@@ -12,7 +12,8 @@ TOL_NORM = "(1#4194304)"        # 2^-22 relative: float32 division by a non-dyad
 
 
 def np_dtype(name):
-    return {"float32": np.float32, "float64": np.float64, "uint8": np.uint8, "int64": np.int64, "int8": np.int8}[name]
+    return {"float32": np.float32, "float64": np.float64, "uint8": np.uint8, "int64": np.int64, "int8": np.int8,
+            "int16": np.int16, "int32": np.int32}[name]
 
 
 # ------------------------------------------------------------------ spaces
@@ -80,8 +81,8 @@ def is_md_rank3(case):
 
 def uses_inexact_norm(case):
     """does the case involve float32 rounding (non-dyadic normalisation range, or float64 inputs that are rounded by .float())?"""
-    if any(l["t"] == "box" and l["low"] == -3 for l in leaves(case["space"])):
-        return True
+    if any(l["t"] == "box" and (l["low"] == -3 or l["dtype"] == "int32") for l in leaves(case["space"])):
+        return True                                      # values that .float() rounds
     if not case.get("normalize"):
         return False
     for l in leaves(case["space"]):
@@ -106,6 +107,11 @@ def leaf_array(leaf, lead, pat=0, trail=None, bad=None):
             v = np.where(i % 2 == 0, 0, 255)
         elif dt == "uint8":
             v = (37 * i + 11 * pat + 3) % 256
+        elif dt in ("int8", "int16", "int32"):            # signed images whose range does not fit the dtype; bounds included
+            step = {"int8": 37, "int16": 7919, "int32": 123456789}[dt]
+            v = np.array([int(lo) + (k * step + 11 * pat) % (int(hi) - int(lo) + 1) for k in range(B * m)], dtype=np.int64)
+            if B * m >= 2:
+                v[0], v[-1] = int(lo), int(hi)
         elif dt == "int64":
             v = ((i + pat) % 5) if lo == 0 else ((3 * i + pat) % 11 - 5)
         elif lo == "per":
